@@ -15,15 +15,24 @@ package c19
 //	         (ERC20 Transfer log + the precompile's mirrored ABCI-event logs)
 //	conv20   Cosmos tx MsgConvertCoinToEvm for the ERC20-born FunToken (releases escrowed ERC20)
 //
+// A block may also carry governance proposals that come due in it ("gov": list of proposals, a proposal = list of
+// FunToken messages whose sender is the gov module account: create / convert / conv20, optionally made to fail).
+// They are submitted, deposited and voted (keeper level) in a set-up block committed just before, so that their
+// voting period ends in the observed block and x/gov's EndBlocker executes them there — EVM logs emitted OUTSIDE
+// DeliverTx.  Logs found in the BeginBlock response are recorded as well.
+//
 // Observables per op: tx code, the index attribute of every EventEthereumTx, and
 // (log index, log tx index) of every log of every EventTxLog; per block: whether
-// the EventBlockBloom equals the union of the blooms of exactly those logs.
+// the EventBlockBloom equals the union of the blooms of exactly those logs; per proposal: its result and the
+// (log index, tx index) of the logs its events carried in the EndBlock response; per EventBlockBloom: how many logs of
+// the block had been emitted before it.
 
 import (
 	"encoding/hex"
 	"encoding/json"
 	"fmt"
 	"math/big"
+	"sort"
 	"strconv"
 	"strings"
 	"testing"
@@ -34,6 +43,8 @@ import (
 	"github.com/cosmos/cosmos-sdk/crypto/keys/secp256k1"
 	sdk "github.com/cosmos/cosmos-sdk/types"
 	bank "github.com/cosmos/cosmos-sdk/x/bank/types"
+	govtypes "github.com/cosmos/cosmos-sdk/x/gov/types"
+	govv1 "github.com/cosmos/cosmos-sdk/x/gov/types/v1"
 	gethcommon "github.com/ethereum/go-ethereum/common"
 	gethcore "github.com/ethereum/go-ethereum/core/types"
 	"github.com/ethereum/go-ethereum/crypto"
@@ -41,6 +52,7 @@ import (
 	. "verifharness/hx"
 
 	"github.com/NibiruChain/nibiru/v2/eth"
+	"github.com/NibiruChain/nibiru/v2/x/common/testutil/testapp"
 	"github.com/NibiruChain/nibiru/v2/x/evm"
 	"github.com/NibiruChain/nibiru/v2/x/evm/embeds"
 	"github.com/NibiruChain/nibiru/v2/x/evm/evmtest"
@@ -57,6 +69,55 @@ type c19Op struct {
 	Inner  int    `json:"inner"`  // eth: logs emitted by an inner call frame that reverts (failure ignored) before the k logs
 }
 
+// c19Msg is one message of a governance proposal (sender = gov module account).
+type c19Msg struct {
+	Kind   string `json:"kind"`   // create | convert | conv20
+	Fail   bool   `json:"fail"`   // create: bank denom without metadata; convert / conv20: more than the gov account holds
+	Sender int    `json:"sender"` // convert / conv20: recipient account; convert: which coin-born FunToken
+}
+
+// c19Block: the ops delivered in the block and the proposals that come due in it.  The JSON form of a block without
+// proposals is the plain list of ops (the shape every earlier corpus / replay file has).
+type c19Block struct {
+	Ops []c19Op
+	Gov [][]c19Msg
+}
+
+func (b c19Block) MarshalJSON() ([]byte, error) {
+	ops := b.Ops
+	if ops == nil {
+		ops = []c19Op{}
+	}
+	if len(b.Gov) == 0 {
+		return json.Marshal(ops)
+	}
+	return json.Marshal(struct {
+		Ops []c19Op    `json:"ops"`
+		Gov [][]c19Msg `json:"gov"`
+	}{ops, b.Gov})
+}
+
+func (b *c19Block) UnmarshalJSON(raw []byte) error {
+	if len(raw) > 0 && raw[0] == '[' {
+		b.Gov = nil
+		return json.Unmarshal(raw, &b.Ops)
+	}
+	var x struct {
+		Ops []c19Op    `json:"ops"`
+		Gov [][]c19Msg `json:"gov"`
+	}
+	if err := json.Unmarshal(raw, &x); err != nil {
+		return err
+	}
+	b.Ops, b.Gov = x.Ops, x.Gov
+	return nil
+}
+
+type c19PropObs struct {
+	Result string   `json:"result"` // passed | failed | rejected | none (no active_proposal event for it in this block)
+	Logs   [][2]int `json:"logs"`   // logs of the EventTxLog events the proposal's messages published, in order
+}
+
 type c19OpObs struct {
 	Code  uint32   `json:"code"`
 	TxIdx []int    `json:"txidx"` // EventEthereumTx.index values
@@ -65,9 +126,13 @@ type c19OpObs struct {
 }
 
 type c19BlockObs struct {
-	Ops     []c19OpObs `json:"ops"`
-	BloomOK bool       `json:"bloom_ok"`
-	NLogs   int        `json:"nlogs"`
+	Begin   [][2]int     `json:"begin"` // logs carried by the BeginBlock response
+	Ops     []c19OpObs   `json:"ops"`
+	Gov     []c19PropObs `json:"gov"`
+	Stray   [][2]int     `json:"stray"` // logs of the EndBlock response that belong to no proposal of the input
+	Pubs    []int        `json:"pubs"`  // per EventBlockBloom: number of logs of the block emitted before it
+	BloomOK bool         `json:"bloom_ok"`
+	NLogs   int          `json:"nlogs"`
 }
 
 // runtime: m := calldata[64]; if m != 0 { CALL self with (m, 1, 0) — an inner frame that emits m logs and
@@ -108,7 +173,7 @@ func newC19World(t *testing.T) *c19World {
 	w.cosmos = secp256k1.GenPrivKey()
 	caddr := sdk.AccAddress(w.cosmos.PubKey().Address())
 	coins := Unibi(1e15)
-	for i := 0; i < 40; i++ {
+	for i := 0; i < 70; i++ {
 		d := fmt.Sprintf("ucoin%d", i)
 		coins = coins.Add(sdk.NewCoin(d, sdkmath.NewInt(1_000_000)))
 		c.App.BankKeeper.SetDenomMetaData(c.Ctx(), bank.Metadata{
@@ -165,10 +230,21 @@ func parseOpObs(r abci.ResponseDeliverTx) (c19OpObs, []*gethcore.Log) {
 		o.Pend = append(o.Pend, n)
 	}
 	for _, a := range EventAttrs(r.Events, "eth.evm.v1.EventTxLog") {
+		for _, l := range parseTxLogAttr(a["logs"]) {
+			o.Logs = append(o.Logs, [2]int{int(l.Index), int(l.TxIndex)})
+			ll := l
+			glogs = append(glogs, (&ll).ToEthereum())
+		}
+	}
+	return o, glogs
+}
+
+// parseTxLogAttr parses the "logs" attribute of one EventTxLog.
+func parseTxLogAttr(raw string) []evm.Log {
+	{
 		var logs []evm.Log
-		raw := a["logs"]
 		if raw == "" || raw == "null" {
-			continue
+			return nil
 		}
 		// typed-event attribute: JSON array of Log objects (proto JSON: uint64 as strings)
 		var arr []map[string]interface{}
@@ -187,13 +263,98 @@ func parseOpObs(r abci.ResponseDeliverTx) (c19OpObs, []*gethcore.Log) {
 			l.TxIndex = anyU64(m["transactionIndex"], m["tx_index"], m["txIndex"])
 			logs = append(logs, l)
 		}
-		for _, l := range logs {
-			o.Logs = append(o.Logs, [2]int{int(l.Index), int(l.TxIndex)})
+		return logs
+	}
+}
+
+// logsOfEvents: (log index, tx index) and the geth form of every log of every EventTxLog in events.
+func logsOfEvents(events []abci.Event) ([][2]int, []*gethcore.Log) {
+	out := [][2]int{}
+	var glogs []*gethcore.Log
+	for _, a := range EventAttrs(events, "eth.evm.v1.EventTxLog") {
+		for _, l := range parseTxLogAttr(a["logs"]) {
+			out = append(out, [2]int{int(l.Index), int(l.TxIndex)})
 			ll := l
 			glogs = append(glogs, (&ll).ToEthereum())
 		}
 	}
-	return o, glogs
+	return out, glogs
+}
+
+// submitProposals runs a set-up block in which the proposals are submitted, fully deposited and voted yes by the
+// genesis validator (keeper level), and returns their ids and the time step after which their voting period is over.
+func (w *c19World) submitProposals(props [][]c19Msg) ([]uint64, [][]string, time.Duration) {
+	c := w.c
+	c.BeginBlock(5 * time.Second)
+	w.blocks++
+	ctx := c.Ctx()
+	gk := c.App.GovKeeper
+	govAddr := c.App.AccountKeeper.GetModuleAddress(govtypes.ModuleName)
+	caddr := sdk.AccAddress(w.cosmos.PubKey().Address())
+	params := gk.GetParams(ctx)
+	vals := c.App.StakingKeeper.GetValidators(ctx, 5)
+	var ids []uint64
+	var created [][]string // per proposal: the bank denoms its create messages map when it passes
+	for pi, p := range props {
+		var msgs []sdk.Msg
+		var newDenoms []string
+		for _, m := range p {
+			switch m.Kind {
+			case "create":
+				d := "unometa"
+				if !m.Fail {
+					d = fmt.Sprintf("ucoin%d", w.nextCoin)
+					w.nextCoin++
+					newDenoms = append(newDenoms, d)
+				}
+				if err := testapp.FundModuleAccount(c.App.BankKeeper, ctx, govtypes.ModuleName, c.App.EvmKeeper.FeeForCreateFunToken(ctx)); err != nil {
+					panic(err)
+				}
+				msgs = append(msgs, &evm.MsgCreateFunToken{FromBankDenom: d, Sender: govAddr.String()})
+			case "convert":
+				d := "ucoin_none"
+				if len(w.denoms) > 0 {
+					d = w.denoms[(m.Sender+pi)%len(w.denoms)]
+				}
+				amt := int64(3)
+				if m.Fail {
+					amt = 1 << 50
+				} else if err := c.App.BankKeeper.SendCoins(ctx, caddr, govAddr, sdk.NewCoins(sdk.NewCoin(d, sdkmath.NewInt(amt)))); err != nil {
+					amt = 4 // the cosmos account does not hold the coin: the message will fail on execution
+				}
+				msgs = append(msgs, &evm.MsgConvertCoinToEvm{
+					Sender: govAddr.String(), BankCoin: sdk.NewCoin(d, sdkmath.NewInt(amt)),
+					ToEthAddr: eth.EIP55Addr{Address: w.accs[m.Sender%len(w.accs)].EthAddr},
+				})
+			case "conv20":
+				d := "erc20/" + w.erc20.Hex()
+				amt := int64(2)
+				if m.Fail {
+					amt = 1 << 50
+				} else if err := c.App.BankKeeper.SendCoins(ctx, caddr, govAddr, sdk.NewCoins(sdk.NewCoin(d, sdkmath.NewInt(amt)))); err != nil {
+					amt = 5
+				}
+				msgs = append(msgs, &evm.MsgConvertCoinToEvm{
+					Sender: govAddr.String(), BankCoin: sdk.NewCoin(d, sdkmath.NewInt(amt)),
+					ToEthAddr: eth.EIP55Addr{Address: w.accs[m.Sender%len(w.accs)].EthAddr},
+				})
+			}
+		}
+		prop, err := gk.SubmitProposal(ctx, msgs, "", "c19", "funtoken messages executed at end of block", caddr)
+		if err != nil {
+			panic("submit proposal: " + err.Error())
+		}
+		if _, err := gk.AddDeposit(ctx, prop.Id, caddr, params.MinDeposit); err != nil {
+			panic("deposit: " + err.Error())
+		}
+		if err := gk.AddVote(ctx, prop.Id, sdk.AccAddress(vals[0].GetOperator()), govv1.NewNonSplitVoteOption(govv1.OptionYes), ""); err != nil {
+			panic("vote: " + err.Error())
+		}
+		ids = append(ids, prop.Id)
+		created = append(created, newDenoms)
+	}
+	c.EndBlock()
+	return ids, created, *params.VotingPeriod
 }
 
 func anyU64(vs ...interface{}) uint64 {
@@ -211,12 +372,20 @@ func anyU64(vs ...interface{}) uint64 {
 	return 0
 }
 
-func (w *c19World) runBlock(ops []c19Op) c19BlockObs {
+func (w *c19World) runBlock(blk c19Block) c19BlockObs {
 	c := w.c
-	c.BeginBlock(5 * time.Second)
+	ops := blk.Ops
+	dt := 5 * time.Second
+	var propIDs []uint64
+	var propDenoms [][]string
+	if len(blk.Gov) > 0 {
+		propIDs, propDenoms, dt = w.submitProposals(blk.Gov)
+	}
+	bb := c.BeginBlock(dt)
 	w.blocks++
-	bo := c19BlockObs{Ops: []c19OpObs{}}
+	bo := c19BlockObs{Ops: []c19OpObs{}, Gov: []c19PropObs{}, Stray: [][2]int{}, Pubs: []int{}}
 	var all []*gethcore.Log
+	bo.Begin, all = logsOfEvents(bb.Events)
 	price := big.NewInt(1_000_000_000_000)
 	for _, op := range ops {
 		var r abci.ResponseDeliverTx
@@ -310,21 +479,81 @@ func (w *c19World) runBlock(ops []c19Op) c19BlockObs {
 		bo.Ops = append(bo.Ops, o)
 	}
 	eb, _ := c.EndBlock()
-	want := gethcore.BytesToBloom(gethcore.LogsBloom(all))
-	got := ""
-	for _, a := range EventAttrs(eb.Events, "eth.evm.v1.EventBlockBloom") {
-		got = strings.Trim(a["bloom"], `"`)
+	// the EndBlock response in event order: logs published by proposal messages (closed by the proposal's
+	// active_proposal event), EventBlockBloom
+	results := map[uint64]c19PropObs{}
+	pending := [][2]int{}
+	var blooms []string
+	for _, ev := range eb.Events {
+		switch ev.Type {
+		case "eth.evm.v1.EventTxLog":
+			pl, gl := logsOfEvents([]abci.Event{ev})
+			pending = append(pending, pl...)
+			all = append(all, gl...)
+		case govtypes.EventTypeActiveProposal:
+			a := EventAttrs([]abci.Event{ev}, ev.Type)[0]
+			id, _ := strconv.ParseUint(a[govtypes.AttributeKeyProposalID], 10, 64)
+			results[id] = c19PropObs{Result: strings.TrimPrefix(a[govtypes.AttributeKeyProposalResult], "proposal_"), Logs: pending}
+			pending = [][2]int{}
+		case "eth.evm.v1.EventBlockBloom":
+			a := EventAttrs([]abci.Event{ev}, ev.Type)[0]
+			blooms = append(blooms, strings.Trim(a["bloom"], `"`))
+			bo.Pubs = append(bo.Pubs, len(all))
+		}
 	}
-	bo.BloomOK = got == eth.BloomToHex(want)
+	bo.Stray = pending
+	for i, id := range propIDs {
+		r, ok := results[id]
+		if !ok {
+			r = c19PropObs{Result: "none", Logs: [][2]int{}}
+		}
+		delete(results, id)
+		bo.Gov = append(bo.Gov, r)
+		if r.Result == "passed" {
+			w.denoms = append(w.denoms, propDenoms[i]...)
+		}
+	}
+	var strayIDs []uint64
+	for id := range results { // a proposal that is not of this block's input came due: its logs are stray
+		strayIDs = append(strayIDs, id)
+	}
+	sort.Slice(strayIDs, func(i, j int) bool { return strayIDs[i] < strayIDs[j] })
+	for _, id := range strayIDs {
+		bo.Stray = append(bo.Stray, results[id].Logs...)
+	}
+	want := gethcore.BytesToBloom(gethcore.LogsBloom(all))
+	bo.BloomOK = len(blooms) == 1 && blooms[0] == eth.BloomToHex(want)
 	bo.NLogs = len(all)
 	return bo
 }
 
-func genC19Case(r *Rng, canConvert bool) [][]c19Op {
+func genC19Gov(r *Rng) [][]c19Msg {
+	var props [][]c19Msg
+	np := r.Pick(5, 3, 1) + 1
+	for i := 0; i < np; i++ {
+		var p []c19Msg
+		nm := r.Pick(3, 2, 1) + 1
+		for j := 0; j < nm; j++ {
+			m := c19Msg{Kind: []string{"create", "convert", "conv20"}[r.Pick(4, 3, 1)], Sender: r.Intn(3)}
+			if r.Chance(1, 6) {
+				m.Fail = true
+			}
+			p = append(p, m)
+		}
+		props = append(props, p)
+	}
+	return props
+}
+
+func genC19Case(r *Rng, canConvert bool) []c19Block {
 	nb := r.Range(1, 3)
-	var blocks [][]c19Op
+	var blocks []c19Block
+	withGov := r.Chance(1, 2) // half of the cases have blocks in which proposals come due
 	for b := 0; b < nb; b++ {
 		n := r.Range(1, 7)
+		if withGov && r.Chance(1, 5) {
+			n = 0 // a block whose only logs come from the EndBlock phase
+		}
 		var ops []c19Op
 		for i := 0; i < n; i++ {
 			switch r.Pick(6, 2, 3, 2, 2, 2) {
@@ -361,17 +590,28 @@ func genC19Case(r *Rng, canConvert bool) [][]c19Op {
 				ops = append(ops, c19Op{Kind: "convert", K: r.Intn(5), Sender: r.Intn(3)})
 			}
 		}
-		blocks = append(blocks, ops)
+		blk := c19Block{Ops: ops}
+		if withGov && (r.Chance(2, 3) || n == 0) {
+			blk.Gov = genC19Gov(r)
+		}
+		blocks = append(blocks, blk)
 	}
 	return blocks
 }
 
 func TestC19(t *testing.T) {
-	cfg := LoadCfg(t, 40, 400)
+	cfg := LoadCfg(t, 100, 1000)
 	em := NewEmitter(t, cfg.Out)
 	defer em.Close()
 	var w *c19World
-	run := func(blocks [][]c19Op) {
+	ops := func(bs ...[]c19Op) []c19Block {
+		var out []c19Block
+		for _, b := range bs {
+			out = append(out, c19Block{Ops: b})
+		}
+		return out
+	}
+	run := func(blocks []c19Block) {
 		if w == nil || w.nextCoin > 30 || w.blocks > 150 {
 			w = newC19World(t)
 		}
@@ -383,7 +623,7 @@ func TestC19(t *testing.T) {
 	}
 	if cfg.Replay != "" {
 		for _, raw := range cfg.ReplayInputs(t) {
-			var blocks [][]c19Op
+			var blocks []c19Block
 			if err := json.Unmarshal(raw, &blocks); err != nil {
 				t.Fatal(err)
 			}
@@ -393,11 +633,19 @@ func TestC19(t *testing.T) {
 		return
 	}
 	// corpus-like fixed openers: the sequences that collided on the pinned tree
-	run([][]c19Op{{{Kind: "eth", K: 1}, {Kind: "create"}, {Kind: "convert"}, {Kind: "eth", K: 2}}})
-	run([][]c19Op{{{Kind: "eth", K: 2}, {Kind: "eth", K: 0}, {Kind: "convert"}, {Kind: "convert"}, {Kind: "eth", K: 1, Revert: true}, {Kind: "eth", K: 3}}})
-	run([][]c19Op{{{Kind: "s2b", K: 1}, {Kind: "eth", K: 1}, {Kind: "conv20"}, {Kind: "s2b", K: 2}, {Kind: "conv20"}, {Kind: "eth", K: 2}}})
-	run([][]c19Op{{{Kind: "eth", K: 1, Inner: 2}, {Kind: "eth", K: 2}, {Kind: "convert"}, {Kind: "eth", K: 2, Inner: 1, Revert: true}, {Kind: "eth", K: 1}}})
-	run([][]c19Op{{{Kind: "eth2", K: 1, K2: 2}, {Kind: "convert"}, {Kind: "eth2", K: 2, K2: 1, Revert: true}, {Kind: "eth", K: 1}, {Kind: "eth2", K: 1, K2: 1, Fail: "gas"}, {Kind: "eth", K: 1}}})
+	run(ops([]c19Op{{Kind: "eth", K: 1}, {Kind: "create"}, {Kind: "convert"}, {Kind: "eth", K: 2}}))
+	run(ops([]c19Op{{Kind: "eth", K: 2}, {Kind: "eth", K: 0}, {Kind: "convert"}, {Kind: "convert"}, {Kind: "eth", K: 1, Revert: true}, {Kind: "eth", K: 3}}))
+	run(ops([]c19Op{{Kind: "s2b", K: 1}, {Kind: "eth", K: 1}, {Kind: "conv20"}, {Kind: "s2b", K: 2}, {Kind: "conv20"}, {Kind: "eth", K: 2}}))
+	run(ops([]c19Op{{Kind: "eth", K: 1, Inner: 2}, {Kind: "eth", K: 2}, {Kind: "convert"}, {Kind: "eth", K: 2, Inner: 1, Revert: true}, {Kind: "eth", K: 1}}))
+	run(ops([]c19Op{{Kind: "eth2", K: 1, K2: 2}, {Kind: "convert"}, {Kind: "eth2", K: 2, K2: 1, Revert: true}, {Kind: "eth", K: 1}, {Kind: "eth2", K: 1, K2: 1, Fail: "gas"}, {Kind: "eth", K: 1}}))
+	// logs emitted outside DeliverTx: proposals executed by x/gov's EndBlocker in a block that also has Ethereum txs and
+	// FunToken txs (one proposal that passes with two messages, one that is rolled back, one single convert)
+	run([]c19Block{
+		{Ops: []c19Op{{Kind: "create"}}},
+		{Ops: []c19Op{{Kind: "eth", K: 1}, {Kind: "convert"}},
+			Gov: [][]c19Msg{{{Kind: "create"}, {Kind: "convert"}}, {{Kind: "create"}, {Kind: "convert", Fail: true}}, {{Kind: "convert", Sender: 1}}}},
+		{Ops: []c19Op{}, Gov: [][]c19Msg{{{Kind: "create"}}}},
+	})
 	rng := NewRng(cfg.Seed)
 	for i := 0; i < cfg.N; i++ {
 		run(genC19Case(rng.Fork(), true))
